@@ -156,6 +156,35 @@ class StandardMonitors:
             return draw_latent_prior
 
         self._patch(FlowProposal, "draw_latent_prior", latent_factory)
+
+        # the prior that enters the rejection weights of an augmented proposal: model prior (+ auxiliary priors of the reparameterisations, taken from nessai) plus
+        # one independent standard normal per augment parameter unless they are marginalised
+        def aug_prior_factory(orig, base_name):
+            def prior(prop, x):
+                r = orig(prop, x)
+                try:
+                    from scipy import stats as _st
+
+                    base = getattr(FlowProposal, base_name)(prop, x)
+                    extra = 0.0
+                    if not prop.marginalise_augment:
+                        for nm in prop.augment_parameters:
+                            extra = extra + _st.norm.logpdf(np.asarray(x[nm], dtype=float))
+                    ref = np.asarray(base + extra, dtype=float)
+                    got = np.asarray(r, dtype=float) + np.zeros_like(ref)
+                    mon.bump("C09.augmented_prior_checks")
+                    bad = ~((np.abs(got - ref) <= 1e-9 * (1 + np.abs(ref))) | (np.isneginf(got) & np.isneginf(ref)))
+                    if np.any(bad):
+                        j = int(np.flatnonzero(bad)[0])
+                        mon.problem("C09", f"augmented:{base_name}-differs-from-prior-plus-normal-prior-of-every-augment-parameter",
+                                    dict(augment_dims=int(prop.augment_dims), returned=float(got[j]), reference=float(ref[j]), points=int(bad.sum())))
+                except Exception:
+                    mon.bump("C09.augmented_prior_check_errors")
+                return r
+            return prior
+
+        self._patch(AugmentedFlowProposal, "log_prior", lambda o: aug_prior_factory(o, "log_prior"))
+        self._patch(AugmentedFlowProposal, "x_prime_log_prior", lambda o: aug_prior_factory(o, "x_prime_log_prior"))
         return self
 
     # ------------------------------------------------------------------ C01
